@@ -452,6 +452,12 @@ func Drive(w *ev.Writer, o Opts) error {
 			chains = 60
 		}
 		randomReuse(w, h, sdocs, r, chains, 8)
+		// garbage inserted into string documents
+		w.Emit(ev.M{"k": "Reset", "name": h.Name, "part": "ins"})
+		for i := 0; i < chains && len(sdocs) > 0; i++ {
+			d := sdocs[r.Intn(len(sdocs))]
+			insertGarbage(w, h, d.doc, d.val, ev.M{"src": "rand"})
+		}
 		w.Emit(ev.M{"k": "Reset", "name": h.Name, "part": "mut"})
 		if len(texts) == 0 {
 			continue
@@ -529,6 +535,7 @@ func Replay(in string, w *ev.Writer, shard, shards int) error {
 			text := roundTrip(w, h, p, val, extra)
 			if num(v["mut"]) == 1 && text != nil {
 				mutate(w, h, text, nil, false, ev.M{"src": "vec", "vec": n, "cls": v["cls"]})
+				insertGarbage(w, h, text, val, ev.M{"src": "vec", "vec": n, "cls": v["cls"]})
 			}
 		case "Seq":
 			vals, _ := v["vals"].([]any)
